@@ -3,6 +3,12 @@
 from typing import Iterator, Optional
 from .tokens import Token, TokenType, KEYWORDS
 from .errors import JSSyntaxError
+from .values import norm_number
+
+
+def _is_digit(ch: str) -> bool:
+    """ASCII decimal digit (str.isdigit() also accepts digits int() cannot read)."""
+    return "0" <= ch <= "9" if ch else False
 
 
 class Lexer:
@@ -61,14 +67,21 @@ class Lexer:
 
             # Multi-line comment
             if ch == "/" and self._peek() == "*":
+                comment_line, comment_column = self.line, self.column
                 self._advance()  # /
                 self._advance()  # *
+                terminated = False
                 while self.pos < self.length:
                     if self._current() == "*" and self._peek() == "/":
                         self._advance()  # *
                         self._advance()  # /
+                        terminated = True
                         break
                     self._advance()
+                if not terminated:
+                    raise JSSyntaxError(
+                        "Unterminated comment", comment_line, comment_column
+                    )
                 continue
 
             break
@@ -169,7 +182,7 @@ class Lexer:
                     hex_str += self._advance()
                 if not hex_str:
                     raise JSSyntaxError("Invalid hex literal", line, col)
-                return int(hex_str, 16)
+                return norm_number(int(hex_str, 16))
             elif next_ch and next_ch in "oO":
                 # Octal
                 self._advance()  # 0
@@ -179,7 +192,7 @@ class Lexer:
                     oct_str += self._advance()
                 if not oct_str:
                     raise JSSyntaxError("Invalid octal literal", line, col)
-                return int(oct_str, 8)
+                return norm_number(int(oct_str, 8))
             elif next_ch and next_ch in "bB":
                 # Binary
                 self._advance()  # 0
@@ -189,19 +202,24 @@ class Lexer:
                     bin_str += self._advance()
                 if not bin_str:
                     raise JSSyntaxError("Invalid binary literal", line, col)
-                return int(bin_str, 2)
+                return norm_number(int(bin_str, 2))
             # Could be 0, 0.xxx, or 0e... - fall through to decimal handling
 
         # Decimal number (integer part)
-        while self._current() and self._current().isdigit():
+        while self._current() and _is_digit(self._current()):
             self._advance()
 
         # Decimal point
         is_float = False
-        if self._current() == "." and self._peek().isdigit():
+        if self._current() == "." and (
+            _is_digit(self._peek())
+            or not (self._peek().isalpha() or self._peek() in ("_", "$"))
+        ):
+            # "5." is a complete literal ("5..x" reads a property of 5); in "5.toFixed"
+            # the dot stays a punctuator
             is_float = True
             self._advance()  # .
-            while self._current() and self._current().isdigit():
+            while self._current() and _is_digit(self._current()):
                 self._advance()
 
         # Exponent
@@ -210,15 +228,15 @@ class Lexer:
             self._advance()
             if self._current() in "+-":
                 self._advance()
-            if not self._current() or not self._current().isdigit():
+            if not self._current() or not _is_digit(self._current()):
                 raise JSSyntaxError("Invalid number literal", line, col)
-            while self._current() and self._current().isdigit():
+            while self._current() and _is_digit(self._current()):
                 self._advance()
 
         num_str = self.source[start : self.pos]
         if is_float:
             return float(num_str)
-        return int(num_str)
+        return norm_number(int(num_str))
 
     def _read_identifier(self) -> str:
         """Read an identifier."""
@@ -247,7 +265,7 @@ class Lexer:
             return Token(TokenType.STRING, value, line, column)
 
         # Number literals
-        if ch.isdigit() or (ch == "." and self._peek().isdigit()):
+        if _is_digit(ch) or (ch == "." and _is_digit(self._peek())):
             value = self._read_number()
             return Token(TokenType.NUMBER, value, line, column)
 
